@@ -72,7 +72,7 @@ class C19(Prop):
                   'scripted one in the correspondence.')
     design_ref = '§5 C19'
     rule = ('route tables: every subset of the five routable types registered for a route, independently every subset with an unknown-route handler (exhaustive 32x32 on a '
-            'core request set) plus random tables with several routes and generated handler signatures; requests of all five types with the route entry first/middle/last/absent/'
+            'core request set) plus random tables with several routes and generated handler signatures; requests of all five types, route tags that are registered, unknown, or near misses of a registered name (white-space padding, other case, prefix, extension), with the route entry first/middle/last/absent/'
             'empty/duplicated, authentication none/accepted/rejected (simple and bearer), verifier configured or not (the scripted verifier suspends once), unparseable metadata; half of the random cases are preceded by 1..3 earlier requests on the same handler instance (same or other credentials / type / route), the last of them optionally still in flight when the judged request arrives; non-trivial = verifier configured or '
             'route not registered for the type; distinct = distinct (table, request)')
     assumptions = ['handlers are coroutine functions registered through the RequestRouter decorators']
@@ -119,7 +119,12 @@ class C19(Prop):
                                          {'k': 'accept', 'ms': ['782f79'], 'enum': False}]))
             rk = rng.choice(['one', 'one', 'one', 'two', 'none', 'empty', 'multi'])
             if rk == 'one':
-                items.insert(rng.randint(0, len(items)), {'k': 'route', 'tags': [rng.choice(names + ['71'])]})
+                tag = rng.choice(names + ['71'])
+                if rng.random() < 0.25:
+                    # a near miss of a registered name: padded with white space, other case, a prefix / an extension of it (exactness of the match)
+                    base = rng.choice(names)
+                    tag = rng.choice(['20' + base, base + '20', base + '0a', '09' + base + '20', base.replace('7', '5', 1), base + base[:2], base[:-2] or '2f', base + '00'])
+                items.insert(rng.randint(0, len(items)), {'k': 'route', 'tags': [tag]})
             elif rk == 'two':
                 items.insert(rng.randint(0, len(items)), {'k': 'route', 'tags': [rng.choice(names)]})
                 items.insert(rng.randint(0, len(items)), {'k': 'route', 'tags': [rng.choice(names)]})
